@@ -117,4 +117,22 @@ CHECKS = {
   "ref": "DESIGN.md §5 C20",
   "note": "trusted: Lean kernel; scheduler shim with scripted socket; os._exit substituted; real socket/exit semantics are the OS's",
   "technique": "Lean 4 proof (case analysis) + fault-injection co-simulation + sequential differential"},
+ "C04": {
+  "text": "Lean theorems over the pool model for every interleaving of submissions, task starts (any pool size), adapter call begins/ends "
+          "with every outcome, and reply enqueues: c04_once (an unfinished task has produced nothing; a finished one exactly one of {one "
+          "reply, one handler notification}), c04_reply_is_result, c04_notified_only_without_reply, c04_call_is_next, c04_isolation, "
+          "c04_out_count, c04_progress. Tied by lock-step co-simulation of the real MetadataProviderServer under the scheduler (effects incl. "
+          "adapter calls with decoded arguments, enabled threads, state after every chunk), a fine-grained (line-level preemption) run with "
+          "oracles, and the closures differential for dispatch and reply kind.",
+  "ref": "DESIGN.md §5 C04",
+  "note": "trusted: Lean kernel; scheduler shim; metaExec hand-written (tied by differential)",
+  "technique": "Lean 4 proof (invariant over all interleavings of the pool model) + lock-step co-simulation + differential"},
+ "C18": {
+  "text": "Lean theorems: c18_size (pool size from the constructor argument, over Gen.poolSize regenerated from the source each run), c18_bound "
+          "(running = started unfinished tasks <= n), c18_one_sequential (n = 1: at most one active task), c18_fifo_start (tasks start in "
+          "submission order), c18_submit_nonblocking, c18_free_worker_takes, c18_calls_only_in_tasks. Tied by the Metadata and Data "
+          "co-simulations (thread identity of every adapter call, enabled-set comparison, blocking adapter calls) and the constructor differential.",
+  "ref": "DESIGN.md §5 C18",
+  "note": "trusted: Lean kernel; translator for Gen/Pool.lean; scheduler shim's pool = ThreadPoolExecutor; cpu_count is a parameter",
+  "technique": "Lean 4 proof (invariant over the pool model; generated sizing function) + lock-step co-simulation"},
 }
